@@ -388,3 +388,36 @@ def bool_fn_table(b, atoms):
             return out
         table[combo] = local_results(0)
     return names, table
+
+
+def possible_results(b, live, local=0, atoms=None, depth=0):
+    """Values the boolean `local` (default: the return place) can take when only the blocks in `live`
+    execute: True / False for constants (through copies and `!`), '?' for anything computed."""
+    from mir import V
+    out = set()
+    if depth > 8:
+        return {'?'}
+    ds = [d for d in b.defs.get(local, []) if (d[1] == 'call' or not d[2]['lhs']['p']) and d[0] in live]
+    if not ds:
+        return {'?'}
+    for (bb, si, st) in ds:
+        if si == 'call':
+            out.add('?')
+            continue
+        rv = st['rv']
+        neg = False
+        o = None
+        if rv['k'] == 'use':
+            o = rv['op']
+        elif rv['k'] == 'un' and rv.get('op') == 'Not':
+            o, neg = rv['a'], True
+        if o is None:
+            out.add('?')
+            continue
+        if o.get('k') == 'const' and o.get('val') in (0, 1):
+            out.add(bool(o['val']) != neg)
+        elif o.get('k') in ('copy', 'move') and not o['place']['p']:
+            out |= set((x != neg) if x != '?' else '?' for x in possible_results(b, live, o['place']['l'], atoms, depth + 1))
+        else:
+            out.add('?')
+    return out
